@@ -62,11 +62,9 @@ Definition tls_version_from_code (c : N) : tls_version :=
   if c =? 0x0304 then V1_3 else if c =? 0x0303 then V1_2 else if c =? 0x0302 then V1_1
   else if c =? 0x0301 then V1_0 else if c =? 0x0300 then Ssl3_0 else if c =? 0x0002 then Ssl2_0
   else VUnknown c.
-(* tls_process.rs determine_tls_version(legacy_version, extensions) *)
+(* tls_process.rs determine_tls_version(legacy_version, extensions): the legacy code goes through the same table *)
 Definition determine_tls_version (legacy : N) (extensions : list N) : tls_version :=
-  if existsb (N.eqb 43) extensions then V1_3
-  else if legacy =? 0x0304 then V1_3 else if legacy =? 0x0303 then V1_2 else if legacy =? 0x0302 then V1_1
-  else if legacy =? 0x0301 then V1_0 else if legacy =? 0x0300 then Ssl3_0 else VUnknown legacy.
+  if existsb (N.eqb 43) extensions then V1_3 else tls_version_from_code legacy.
 
 Definition list_max (l : list N) : option N :=
   match l with [] => None | x :: r => Some (fold_left N.max r x) end.
@@ -150,7 +148,10 @@ Definition parse_tls_client_hello (data : bytes) : tls_result :=
 Definition version_text (v : tls_version) : bytes :=
   match v with
   | V1_3 => bs "13" | V1_2 => bs "12" | V1_1 => bs "11" | V1_0 => bs "10"
-  | Ssl3_0 => bs "s3" | Ssl2_0 => bs "s2" | VUnknown _ => bs "00" end.
+  | Ssl3_0 => bs "s3" | Ssl2_0 => bs "s2"
+  | VUnknown c =>      (* Display: DTLS 1.0 / 1.2 / 1.3 codes, then "00" *)
+      if c =? 0xfeff then bs "d1" else if c =? 0xfefd then bs "d2" else if c =? 0xfefc then bs "d3" else bs "00"
+  end.
 
 (* byte length of the UTF-8 character that starts with byte b0 (input is valid UTF-8) *)
 Definition utf8_char_len (b0 : N) : nat :=
@@ -228,7 +229,10 @@ Definition opt_hex (o : option bytes) : bytes :=
   match o with Some x => bs ":" ++ show_hex x | None => bs "-" end.
 Definition csv_or_dash (l : list N) : bytes := match l with [] => bs "-" | _ => csv l end.
 Definition version_token (v : tls_version) : bytes :=
-  match v with VUnknown c => bs "00:" ++ hex4 c | _ => version_text v end.
+  match v with
+  | VUnknown c => if bytes_eqb (version_text v) (bs "00") then bs "00:" ++ hex4 c else version_text v
+  | _ => version_text v
+  end.
 
 (* the four strings: JA4, JA4_r, JA4_o, JA4_ro *)
 Definition ja4_all (s : signature) : bytes * bytes * bytes * bytes :=
